@@ -98,8 +98,9 @@ func ZZ_C07_factory_reports_assigned() {
 // created none.
 // zz:noreplay the OpenAPI client, the vSwitch pool and the metadata service are replaced through engine-side overrides
 func ZZ_C07_factory_create_reports_eni() {
-	failAt := zz.Fork("fail.at", 9) // 0 none, 1 create, 2 attach, 3 ip not in metadata, 4 mac not in metadata, 5 cidr, 6 gateway, 7 describe fails, 8 never in use
+	failAt := zz.Fork("fail.at", 12) // 0 none, 1 create, 2 attach, 3 ip not in metadata, 4 mac not in metadata, 5 cidr, 6 gateway, 7 describe fails, 8 never in use; dual stack only: 9 IPv6 address not in metadata, 10 IPv6 cidr, 11 IPv6 gateway
 	ipv6 := zz.Fork("ipv6", 2)
+	zz.Assume(failAt < 9 || ipv6 > 0)
 	zz.Override("time.After", func(d time.Duration) <-chan time.Time {
 		c := make(chan time.Time, 1)
 		c <- time.Time{}
@@ -134,6 +135,9 @@ func ZZ_C07_factory_create_reports_eni() {
 		return []netip.Addr{netip.MustParseAddr("10.0.0.9")}, nil
 	})
 	zz.Override("github.com/AliyunContainerService/terway/pkg/aliyun/metadata.GetIPv6ByMac", func(mac string) ([]netip.Addr, error) {
+		if failAt == 9 {
+			return nil, nil
+		}
 		return []netip.Addr{netip.MustParseAddr("fd00::9")}, nil
 	})
 	zz.Override("github.com/AliyunContainerService/terway/pkg/aliyun/metadata.GetENIsMAC", func() ([]string, error) {
@@ -149,6 +153,9 @@ func ZZ_C07_factory_create_reports_eni() {
 		return &net.IPNet{IP: net.IP{10, 0, 0, 0}, Mask: net.CIDRMask(24, 32)}, nil
 	})
 	zz.Override("github.com/AliyunContainerService/terway/pkg/aliyun/metadata.GetVSwitchIPv6CIDR", func(mac string) (*net.IPNet, error) {
+		if failAt == 10 {
+			return nil, errZZAPI
+		}
 		return &net.IPNet{IP: net.ParseIP("fd00::"), Mask: net.CIDRMask(64, 128)}, nil
 	})
 	zz.Override("github.com/AliyunContainerService/terway/pkg/aliyun/metadata.GetENIGatewayAddr", func(mac string) (netip.Addr, error) {
@@ -158,6 +165,9 @@ func ZZ_C07_factory_create_reports_eni() {
 		return netip.MustParseAddr("10.0.0.253"), nil
 	})
 	zz.Override("github.com/AliyunContainerService/terway/pkg/aliyun/metadata.GetENIV6GatewayAddr", func(mac string) (netip.Addr, error) {
+		if failAt == 11 {
+			return netip.Addr{}, errZZAPI
+		}
 		return netip.MustParseAddr("fd00::fd"), nil
 	})
 	zz.Override("(*github.com/AliyunContainerService/terway/pkg/aliyun/client.OpenAPI).DescribeNetworkInterface", func(a *client.OpenAPI, ctx context.Context, vpcID string, eniID []string, instanceID string, instanceType string, status string, tags map[string]string) ([]*client.NetworkInterface, error) {
